@@ -274,12 +274,25 @@ def build_net(spec_names, cfgname, rng):
     cfg = CFGS[cfgname]
     configure(cfg)
     names = list(spec_names)
+    # some species take part in no reaction and enter as required species - at construction, or assigned later, possibly
+    # after the species list has already been looked at
+    held, mode = [], "none"
+    if len(names) >= 4 and rng.random() < 0.5:
+        k = rng.randint(1, 2)
+        names, held = names[:-k], names[-k:]
+        mode = rng.choice(["ctor", "late", "late-after-query"])
     rs = []
     for i in range(len(names)):
         a, b = names[i], names[(i + 1) % len(names)]
         rs.append(Reaction([a, rng.choice(names)], [b], alpha=1e-10, reaction_type=RT.GAS_TWOBODY, idxfromfile=i + 1))
     with silenced():
-        return Network(rs, elements=list(cfg["elements"]), pseudo_elements=list(cfg["pseudo"]))
+        net = Network(rs, elements=list(cfg["elements"]), pseudo_elements=list(cfg["pseudo"]),
+                      required_species=list(held) if mode == "ctor" else None)
+        if mode == "late-after-query":
+            _ = [s.name for s in net.species], net.elements
+        if mode.startswith("late"):
+            net.required_species = list(held)
+    return net
 
 
 def run_c09(argv):
